@@ -66,9 +66,10 @@ BYTES_ATOMS = [b"", b"a", b"\n'\""]
 
 A_FULL = (
     [V("None", "none", True, None), V("True", "bool", True, "num"), V("False", "bool", True, "num")]
-    + [V(e, "int", True, "num") for e in ("0", "1", "-1", "2**64")]
-    + [V(e, "float", True, "num") for e in ("1.5", "-0.0", "1e100", "inf", "-inf")]
-    + [V(e, "complex", True, None) for e in ("1j", "(3+5j)")]
+    + [V(e, "int", True, "num") for e in ("0", "1", "-1", "2**64", "-2")]
+    + [V(e, "float", True, "num") for e in ("1.5", "-0.0", "1e100", "inf", "-inf", "-1.5", "1e-07")]
+    # complex: with / without real part, negative zero in either part (repr keeps parentheses for a -0.0 real part)
+    + [V(e, "complex", True, None) for e in ("1j", "(3+5j)", "-1j", "complex(-0.0, -2.0)", "complex(1, -0.0)", "(-3-5j)")]
     + [V(_s(s), "str", True, "str") for s in STR_ATOMS]
     + [V(_s(b), "bytes", True, "bytes") for b in BYTES_ATOMS]
     + [V("Color.RED", "enum", True, None), V("Perm.R", "flag", True, None),
